@@ -29,6 +29,7 @@ import (
 	"sort"
 	"strings"
 	"sync"
+	"time"
 
 	"honnef.co/go/tools/lintcmd/cache"
 
@@ -364,18 +365,25 @@ func Run(r *vf.Run) {
 	if want("b") || want("c") {
 		m.child = r.BuildBin("c05child", "./cmd/c05child", false)
 	}
+	walls := map[string]float64{} // informational only
+	timed := func(name string, f func()) {
+		t := time.Now()
+		f()
+		walls[name] = float64(time.Since(t).Milliseconds()) / 1000
+	}
 	if want("a") {
-		m.runStates()
+		timed("a_states", m.runStates)
 	}
 	if want("b") {
-		m.runKills()
+		timed("b_kills", m.runKills)
 	}
 	if want("c") {
-		m.runConcurrent()
+		timed("c_concurrent", m.runConcurrent)
 	}
 	if want("d") {
-		m.runE2E()
+		timed("d_e2e", m.runE2E)
 	}
+	r.Set("wall_s_by_monitor_informational", walls)
 	r.Assume("process death (SIGKILL), truncation, trailing garbage and removal of cache files are the fault model; same-length content corruption of a data file (media-level torn sectors) is outside the property's quantifier and outside what GetFile's size check can detect")
 	r.Assume("values handed to Put do not change between Put's two read passes")
 	floor := 200
